@@ -168,6 +168,7 @@ struct MachineConfig {
   // BV profile (DESIGN.md 4.5): integers are two's-complement values modulo
   // 2^width, stored as their signed representative
   bool bv = false;
+  bool bv_strict = false; // KF61 neutraliser: judge a constraint only if no sub-sum can wrap
 };
 
 // signed representative of v modulo 2^w
